@@ -127,6 +127,34 @@ def view(ir, m):
     return v
 
 
+def inst_cfg(ir, m):
+    """the CFG flattened to instructions: (address of instruction, successor address | 'proxy', edge type, conditional);
+    two block partitions of the same listing with equivalent control flow flatten to the same set"""
+    out = set()
+    for b in m.code_blocks:
+        if b.address is None or b.section.name != ".text" or b.size == 0:
+            continue
+        insns = list(MD.disasm(bytes(b.contents), b.address))
+        for i, nxt in zip(insns, insns[1:]):
+            out.add((i.address - BASE, nxt.address - BASE, "Fallthrough", False))
+        if not insns:
+            continue
+        last = insns[-1].address - BASE
+        for e in b.outgoing_edges:
+            t = e.target
+            # an edge to an empty block continues with that block's own successors: not expected in final modules
+            tgt = "proxy" if isinstance(t, gtirb.ProxyBlock) else (t.address - BASE if t.address is not None else "noaddr")
+            out.add((last, tgt, e.label.type.name, bool(e.label.conditional)))
+    return out
+
+
+def listing(ir, m):
+    """partition-independent description of a module's text section (for comparing two rewrites of the same input)"""
+    v = view(ir, m)
+    return {"bytes": v["bytes"].hex(), "labels": v["labels"], "ann": v["ann"], "func_of": v["func_of"], "func_entries": v["func_entries"],
+            "cfi": v["cfi"], "inst_cfg": sorted(inst_cfg(ir, m), key=repr)}
+
+
 # ------------------------------------------------------------------------------------------------ the listing-edit oracle
 class Edits:
     """modifications (possibly of several blocks), positions relative to the section start.
